@@ -512,7 +512,7 @@ class UpdaterModel:
                 t_cur = self.dispatch.crate.types[fld[0]['ty']]['s'].lstrip('&').replace('mut ', '').strip().split('<')[0]
                 pre.append(part)
                 cands.append((t_cur, '.'.join(pre) + '.'))
-            for ty_, pre_ in cands:
+            for ty_, pre_ in reversed(cands):       # (the struct closest to the published fields first: the updater itself)
                 ctors = [b for b in fb.bodies(common.DAEMON)
                          if b.defkind != 'Closure' and b.tystr(b.locals[0]['ty']).split('<')[0] == ty_ and b.path != self.dispatch.path
                          and not (b.argc >= 1 and b.tystr(b.locals[1]['ty']).lstrip('&').replace('mut ', '').strip().split('<')[0] == ty_)]
